@@ -236,6 +236,12 @@ func (c *EvalCtx) evalIdent(name string) (TV, error) {
 		if a := c.findLocal(name); a != nil {
 			t := a.Type().(*types.Pointer).Elem()
 			if !a.Heap {
+				if _, live := c.st.cells[a]; !live {
+					// e.g. old(p) for a parameter: the cell does not exist yet in the entry state
+					if pv, ok := c.fr.params[name]; ok {
+						return TV{Val: pv, Ty: t}, nil
+					}
+				}
 				return TV{Val: c.e.cellGet(c.st, a), Ty: t}, nil
 			}
 			if loc, ok := c.fr.vals[a]; ok {
@@ -614,7 +620,9 @@ func (c *EvalCtx) evalSelector(x *SSelector) (TV, error) {
 			loc = FieldLoc(loc, si.Fields[i].FID)
 			ft = si.Fields[i].Type
 		}
-		return TV{Val: c.e.load(c.st, loc, ft), Ty: ft}, nil
+		lv := c.e.load(c.st, loc, ft)
+		c.assumeLoadedValid(lv, ft)
+		return TV{Val: lv, Ty: ft}, nil
 	}
 	idx, ts, ok := findField(t, x.Sel)
 	if !ok {
@@ -632,6 +640,24 @@ func (c *EvalCtx) evalSelector(x *SSelector) (TV, error) {
 }
 
 // evalAddr evaluates the location of an addressable expression.
+// assumeLoadedValid: values read from memory satisfy their type invariant (lengths are
+// non-negative, references are allocated). Skipped under quantifiers.
+func (c *EvalCtx) assumeLoadedValid(v Val, t types.Type) {
+	if strings.Contains(v.T, "!") || c.st == nil {
+		return
+	}
+	key := "valid:" + v.T
+	if c.e.revealDone[key] {
+		return
+	}
+	c.e.revealDone[key] = true
+	for _, f := range c.e.validFacts(c.st, v, t, 0) {
+		if !strings.Contains(f.T, "next") { // allocation facts depend on the state; keep only shape facts
+			c.e.fact(f)
+		}
+	}
+}
+
 func (c *EvalCtx) evalAddr(x SExpr) (Val, types.Type, error) {
 	switch x := x.(type) {
 	case *SIdent:
